@@ -15,7 +15,7 @@ type ByteFn interface {
 
 type FnArr struct{ A *smt.Term } // nondeterministic input: select(A, i)
 type FnZero struct{}
-type FnConst struct{ B []byte }
+type FnConst struct{ B string }
 type FnWrite struct {
 	Old ByteFn
 	Idx *smt.Term
@@ -104,7 +104,7 @@ func (v view) wholeAtom() (*smt.Term, bool) {
 func strView(s Str) view { return view{s.Fn, s.Off, s.Len} }
 func bytesView(b Bytes) view {
 	if b.Nil || b.Buf == nil {
-		return view{FnConst{nil}, c0, c0}
+		return view{FnConst{""}, c0, c0}
 	}
 	return view{b.Buf.Fn, b.Off, b.Len}
 }
@@ -123,7 +123,7 @@ func (v view) normalized() ByteFn {
 }
 
 func constStr(s string) Str {
-	return Str{Fn: FnConst{[]byte(s)}, Off: c0, Len: c64(len(s))}
+	return Str{Fn: FnConst{s}, Off: c0, Len: c64(len(s))}
 }
 
 // concreteString returns the Go string if the view is fully concrete.
@@ -153,6 +153,9 @@ const maxExpandEq = 96
 // index for the negative side and registers the pair for targeted
 // instantiation of the positive side.
 func (e *Exec) viewEq(a, b view) *smt.Term {
+	if a.Fn == b.Fn && a.Off == b.Off && a.Len == b.Len {
+		return smt.True
+	}
 	if ta, ok := a.wholeAtom(); ok {
 		if tb, ok := b.wholeAtom(); ok {
 			return smt.Eq(ta, tb)
@@ -178,8 +181,16 @@ func (e *Exec) viewEq(a, b view) *smt.Term {
 		return smt.And(cs...)
 	}
 	// same function & offset: equal iff lengths equal
-	if fmt.Sprintf("%p", a.Fn) == fmt.Sprintf("%p", b.Fn) && sameFn(a.Fn, b.Fn) && a.Off == b.Off {
+	if a.Fn == b.Fn && a.Off == b.Off {
 		return smt.Eq(a.Len, b.Len)
+	}
+	// bounded lengths: exact expansion (both polarities), so that models are realisable
+	if m, ok := e.smallMax(a.Len, b.Len); ok {
+		cs := []*smt.Term{smt.Eq(a.Len, b.Len)}
+		for i := 0; i < m; i++ {
+			cs = append(cs, smt.Implies(smt.ULt(c64(i), a.Len), smt.Eq(a.at(c64(i)), b.at(c64(i)))))
+		}
+		return smt.And(cs...)
 	}
 	p := e.path
 	p.nextSym++
@@ -235,6 +246,22 @@ func (p *Path) instantiations() []*smt.Term {
 
 // hasPrefixTerm: b is a prefix of a.
 func (e *Exec) hasPrefixTerm(a, pre view) *smt.Term {
+	// syntactic: pre is a leading run of the parts a was concatenated from
+	if a.Off == c0 && pre.Off == c0 {
+		pa, pp := e.partsOf(a), e.partsOf(pre)
+		if len(pp) <= len(pa) {
+			same := true
+			for i := range pp {
+				if pp[i] != pa[i] {
+					same = false
+					break
+				}
+			}
+			if same {
+				return smt.True
+			}
+		}
+	}
 	if pre.Len.IsConst() && pre.Len.Val <= maxExpandEq {
 		n := int(pre.Len.Val)
 		cs := []*smt.Term{smt.ULe(pre.Len, a.Len)}
@@ -245,4 +272,59 @@ func (e *Exec) hasPrefixTerm(a, pre view) *smt.Term {
 	}
 	sub := view{a.Fn, a.Off, pre.Len}
 	return smt.And(smt.ULe(pre.Len, a.Len), e.viewEq(sub, pre))
+}
+
+// partsOf returns the concatenation provenance of a view (itself if none).
+func (e *Exec) partsOf(v view) []view {
+	if ps, ok := e.path.concats[v]; ok {
+		return ps
+	}
+	return []view{v}
+}
+
+const smallEqMax = 130
+
+// smallMax returns a bound <= smallEqMax on min(la, lb) if one can be
+// established (statically, or by a few feasibility probes for atoms).
+func (e *Exec) smallMax(la, lb *smt.Term) (int, bool) {
+	if e.initMode {
+		return 0, false
+	}
+	best := -1
+	unknownStatic := false
+	for _, l := range []*smt.Term{la, lb} {
+		if sm, ok := e.staticMax(l); ok {
+			if sm <= smallEqMax && (best < 0 || int(sm) < best) {
+				best = int(sm)
+			}
+		} else {
+			unknownStatic = true
+		}
+	}
+	if best >= 0 {
+		return best, true
+	}
+	if !unknownStatic {
+		return 0, false
+	}
+	key := fmt.Sprintf("smallmax:%d:%d:%d", la.ID(), lb.ID(), len(e.path.pc))
+	if v, ok := e.path.extra[key].(int); ok {
+		return v, v >= 0
+	}
+	res := -1
+	for _, l := range []*smt.Term{la, lb} {
+		if _, ok := e.staticMax(l); ok {
+			continue
+		}
+		for _, T := range []uint64{16, 72, smallEqMax} {
+			if e.feasible(smt.UGt(l, smt.Const(T, 64))) == smt.Unsat {
+				if res < 0 || int(T) < res {
+					res = int(T)
+				}
+				break
+			}
+		}
+	}
+	e.path.extra[key] = res
+	return res, res >= 0
 }
